@@ -592,7 +592,9 @@ pub fn explore(sc: &dyn Scenario, tier: Tier, runs: u64) -> i32 {
         if std::env::var("VERIF_MIN").is_ok() {
             let plan = sc.generate(*seed, tier);
             let target = Violation { property: p.clone(), oracle: o.clone(), signature: s.clone(), summary: String::new(), step: 0 };
-            let (mp, mv) = minimise(sc, &plan, &target, 30);
+            // VERIF_MIN=<seconds> sets the minimisation budget per class (default 30 s)
+            let budget = std::env::var("VERIF_MIN").ok().and_then(|s| s.parse::<u64>().ok()).filter(|n| *n > 1).unwrap_or(30);
+            let (mp, mv) = minimise(sc, &plan, &target, budget);
             println!("      minimised {} -> {} events: cfg {}", plan.events.len(), mp.events.len(), mp.cfg);
             for e in &mp.events {
                 println!("        {e}");
